@@ -630,7 +630,9 @@ func (t *c20Tally) guarded(op string, f func() error) {
 
 var c20PollOps = []string{"ID", "Exited", "ReattachConfig", "NegotiatedVersion"}
 
-var c20ClientOps = []string{"Start", "Client", "Protocol", "NegotiatedVersion", "ID", "Exited", "ReattachConfig", "Ping", "Dispense", "Callback"}
+var c20Burst = []byte(strings.Repeat("c20-burst-of-plugin-output ", 120) + "\n")
+
+var c20ClientOps = []string{"Start", "Client", "Protocol", "NegotiatedVersion", "ID", "Exited", "ReattachConfig", "Ping", "Dispense", "Callback", "Emit"}
 
 func c20ClientOp(c *plugin.Client, op string, tag int, q *rng, t *c20Tally) {
 	t.guarded(op, func() error {
@@ -659,7 +661,7 @@ func c20ClientOp(c *plugin.Client, op string, tag int, q *rng, t *c20Tally) {
 				return err
 			}
 			return cp.Ping()
-		case "Dispense", "Callback":
+		case "Dispense", "Callback", "Emit":
 			cp, err := c.Client()
 			if err != nil {
 				return err
@@ -679,6 +681,10 @@ func c20ClientOp(c *plugin.Client, op string, tag int, q *rng, t *c20Tally) {
 			}
 			if op == "Callback" {
 				return k.Callback()
+			}
+			if op == "Emit" {
+				// the plugin serves several implementations at once while it writes bursts (several chunks) to both standard streams
+				return k.Emit(c20Burst, c20Burst)
 			}
 		}
 		return nil
